@@ -1,4 +1,5 @@
-/* LD_PRELOAD shim: records every write-class system call on one watched file.
+/* LD_PRELOAD shim: records every write-class system call on one watched file (and optionally a second one,
+ * IOTRACE_PATH2, whose records carry the lower-case operation letters).
  * IOTRACE_PATH = file to watch, IOTRACE_LOG = log file (binary records).
  * record: 1 byte op ('W' write, 'F' fsync, 'T' ftruncate, 'O' open, 'C' close),
  *         8 bytes offset (LE), 8 bytes length (LE), then <length> data bytes for 'W';
@@ -20,6 +21,7 @@
 
 static int watched[1024];
 static int logfd = -1;
+static int cur = 1;      /* which watched file the record being written belongs to */
 static long nwrites, fail_at = -1, kill_at = -1;
 
 static void init(void)
@@ -40,25 +42,32 @@ static void rec(char op, unsigned long long off, unsigned long long len, const v
 	int i;
 	ssize_t (*rw)(int, const void *, size_t) = dlsym(RTLD_NEXT, "write");
 	if (logfd < 0) return;
-	h[0] = op;
+	h[0] = cur == 2 ? op + 32 : op;
 	for (i = 0; i < 8; i++) { h[1 + i] = off >> (8 * i); h[9 + i] = len >> (8 * i); }
 	rw(logfd, h, 17);
-	if (op == 'W' && data) rw(logfd, data, len);
+	if ((op == 'W') && data) rw(logfd, data, len);
 }
 
-static int is_watched_path(const char *p)
+static int same_path(const char *p, const char *w)
 {
-	const char *w = getenv("IOTRACE_PATH");
 	char a[4096], b[4096];
 	if (!w || !p) return 0;
 	if (!realpath(p, a) || !realpath(w, b)) return !strcmp(p, w);
 	return !strcmp(a, b);
 }
+static int is_watched_path(const char *p)
+{
+	if (same_path(p, getenv("IOTRACE_PATH"))) return 1;
+	if (same_path(p, getenv("IOTRACE_PATH2"))) return 2;
+	return 0;
+}
+#define REC(fd, op, a, b, c) do { cur = watched[fd]; rec(op, a, b, c); } while (0)
 
 static void note_open(int fd, const char *path, int flags)
 {
 	init();
-	if (fd >= 0 && fd < 1024 && is_watched_path(path)) { watched[fd] = 1; rec('O', flags, 0, 0); }
+	int w;
+	if (fd >= 0 && fd < 1024 && (w = is_watched_path(path))) { watched[fd] = w; REC(fd, 'O', flags, 0, 0); }
 }
 
 int open(const char *path, int flags, ...)
@@ -87,7 +96,7 @@ int openat(int dfd, const char *path, int flags, ...)
 }
 int close(int fd)
 {
-	if (fd >= 0 && fd < 1024 && watched[fd]) { rec('C', 0, 0, 0); watched[fd] = 0; }
+	if (fd >= 0 && fd < 1024 && watched[fd]) { REC(fd, 'C', 0, 0, 0); watched[fd] = 0; }
 	return ((int (*)(int)) dlsym(RTLD_NEXT, "close"))(fd);
 }
 static int should_fail(void)
@@ -102,7 +111,7 @@ ssize_t pwrite64(int fd, const void *buf, size_t n, off64_t off)
 	if (fd >= 0 && fd < 1024 && watched[fd] && should_fail()) { errno = EIO; return -1; }
 	r = ((ssize_t (*)(int, const void *, size_t, off64_t)) dlsym(RTLD_NEXT, "pwrite64"))(fd, buf, n, off);
 	/* only calls that took effect are part of the history (a write on a read-only descriptor fails with EBADF) */
-	if (r > 0 && fd >= 0 && fd < 1024 && watched[fd]) rec('W', off, r, buf);
+	if (r > 0 && fd >= 0 && fd < 1024 && watched[fd]) REC(fd, 'W', off, r, buf);
 	return r;
 }
 ssize_t pwrite(int fd, const void *buf, size_t n, off_t off)
@@ -117,36 +126,36 @@ ssize_t write(int fd, const void *buf, size_t n)
 		ssize_t r;
 		if (should_fail()) { errno = EIO; return -1; }
 		r = rw(fd, buf, n);
-		if (r > 0) rec('W', pos, r, buf);
+		if (r > 0) REC(fd, 'W', pos, r, buf);
 		return r;
 	}
 	return rw(fd, buf, n);
 }
 int fsync(int fd)
 {
-	if (fd >= 0 && fd < 1024 && watched[fd]) rec('F', 0, 0, 0);
+	if (fd >= 0 && fd < 1024 && watched[fd]) REC(fd, 'F', 0, 0, 0);
 	return ((int (*)(int)) dlsym(RTLD_NEXT, "fsync"))(fd);
 }
 int fdatasync(int fd)
 {
-	if (fd >= 0 && fd < 1024 && watched[fd]) rec('F', 1, 0, 0);
+	if (fd >= 0 && fd < 1024 && watched[fd]) REC(fd, 'F', 1, 0, 0);
 	return ((int (*)(int)) dlsym(RTLD_NEXT, "fdatasync"))(fd);
 }
 int ftruncate(int fd, off_t len)
 {
 	int r = ((int (*)(int, off_t)) dlsym(RTLD_NEXT, "ftruncate"))(fd, len);
-	if (r == 0 && fd >= 0 && fd < 1024 && watched[fd]) rec('T', len, 0, 0);
+	if (r == 0 && fd >= 0 && fd < 1024 && watched[fd]) REC(fd, 'T', len, 0, 0);
 	return r;
 }
 int ftruncate64(int fd, off64_t len)
 {
 	int r = ((int (*)(int, off64_t)) dlsym(RTLD_NEXT, "ftruncate64"))(fd, len);
-	if (r == 0 && fd >= 0 && fd < 1024 && watched[fd]) rec('T', len, 0, 0);
+	if (r == 0 && fd >= 0 && fd < 1024 && watched[fd]) REC(fd, 'T', len, 0, 0);
 	return r;
 }
 int fallocate(int fd, int mode, off_t off, off_t len)
 {
 	int r = ((int (*)(int, int, off_t, off_t)) dlsym(RTLD_NEXT, "fallocate"))(fd, mode, off, len);
-	if (r == 0 && fd >= 0 && fd < 1024 && watched[fd]) rec('A', off, len, 0);
+	if (r == 0 && fd >= 0 && fd < 1024 && watched[fd]) REC(fd, 'A', off, len, 0);
 	return r;
 }
